@@ -13,7 +13,9 @@ use serde::{Deserialize, Serialize};
 use vcommon::pick_index;
 
 pub const NLANES: u8 = 4;
-pub const LANE_NAMES: [&str; 5] = ["v0", "m0", "v1", "m1", "ctl"];
+/// External lane names (what remotes address). `v1` and `m1` are renamed with `#[item(name = ..)]`, so their
+/// external names differ from the field names the lifecycle uses.
+pub const LANE_NAMES: [&str; 5] = ["v0", "m0", "second_value", "otherMap", "ctl"];
 pub const CTL: u8 = 4;
 pub const NKEYS: i32 = 3;
 
@@ -81,6 +83,21 @@ pub fn to_val(x: i64, off: i32) -> i32 {
     x.wrapping_add(off as i64).rem_euclid(1000) as i32
 }
 
+/// The closure given to `transform_entry`. op 0: increment or insert `c`; 1: remove (absent: nothing); 2: increment
+/// (absent: nothing).
+pub fn xform(op: u8, cur: Option<i32>, c: i32) -> Option<i32> {
+    match (op % 3, cur) {
+        (0, Some(v)) | (2, Some(v)) => Some(to_val(v as i64, 1)),
+        (0, None) => Some(c),
+        _ => None,
+    }
+}
+
+/// Key `i` of a burst (distinct from the keys 0..NKEYS used everywhere else, and below them in key order).
+pub fn burst_key(i: u16) -> i32 {
+    -1000 - i as i32
+}
+
 pub fn arm_of(x: i64, n: usize) -> usize {
     x.rem_euclid(n as i64) as usize
 }
@@ -92,6 +109,12 @@ pub enum RP {
     Then(Box<RP>, Box<RP>),
     /// Mutate a lane of index >= level. kind: 0,1 = update, 2 = remove, 3 = clear (map lanes).
     Mut { sel: u16, kind: u8, k: i32, v: i32 },
+    /// `transform_value` (value lanes) / `transform_entry` (map lanes) of a lane of index >= level.
+    Xform { sel: u16, op: u8, k: i32, c: i32 },
+    /// `replace_map` of a map lane of index >= level.
+    Replace { sel: u16, entries: Vec<(i32, i32)> },
+    /// `n` consecutive sets / updates (distinct keys) of one lane in a single handler.
+    Burst { sel: u16, n: u16, v: i32 },
     /// `value.discard()`.
     Discard(RV),
     /// `first.and_then*(|x| arms[x mod len])`.
@@ -136,6 +159,14 @@ pub enum P {
     Upd { lane: u8, k: i32, v: i32 },
     Rem { lane: u8, k: i32 },
     Clr { lane: u8 },
+    /// `transform_value(lane, |v| to_val(v, add))`
+    XformV { lane: u8, add: i32 },
+    /// `transform_entry(lane, k, |e| xform(op, e, c))`
+    XformE { lane: u8, k: i32, op: u8, c: i32 },
+    /// `replace_map(lane, entries)` = clear, then the updates in order
+    Replace { lane: u8, entries: Vec<(i32, i32)> },
+    /// value lane: `set(v), set(v+1), ..`; map lane: `update(burst_key(i), v)` for i in 0..n
+    Burst { lane: u8, n: u16, v: i32 },
     Discard(V),
     Branch { first: V, how: How, arms: Vec<P> },
     /// `target` is a Set / Upd / Rem / Clr whose value is replaced by `to_val(x, off)`.
@@ -220,6 +251,9 @@ impl Tables {
     pub fn probe_index(&self) -> usize {
         self.run.len() - 1
     }
+    pub fn has_burst(&self) -> bool {
+        self.run.iter().any(|p| matches!(p, P::Burst { .. }))
+    }
 }
 
 struct Resolver<'a> {
@@ -272,6 +306,32 @@ impl<'a> Resolver<'a> {
                         _ => P::Clr { lane },
                     }
                 }
+            }
+            RP::Xform { sel, op, k, c } => {
+                if cx.level >= NLANES {
+                    return self.eff();
+                }
+                let lane = cx.level + pick_index(*sel, (NLANES - cx.level) as usize) as u8;
+                if is_value(lane) {
+                    P::XformV { lane, add: *c }
+                } else {
+                    P::XformE { lane, k: k.rem_euclid(NKEYS), op: op % 3, c: *c }
+                }
+            }
+            RP::Replace { sel, entries } => {
+                let maps: Vec<u8> = [1u8, 3].into_iter().filter(|l| *l >= cx.level).collect();
+                if maps.is_empty() {
+                    return self.eff();
+                }
+                let lane = maps[pick_index(*sel, maps.len())];
+                P::Replace { lane, entries: entries.iter().map(|(k, v)| (k.rem_euclid(NKEYS), *v)).collect() }
+            }
+            RP::Burst { sel, n, v } => {
+                // only lanes whose handlers are cheap (index >= 1) and only at top level
+                if cx.level > 0 {
+                    return self.eff();
+                }
+                P::Burst { lane: 1 + pick_index(*sel, 3) as u8, n: 260 + n % 140, v: *v }
             }
             RP::Discard(v) => P::Discard(self.resv(v, cx)),
             RP::Branch { first, how, arms } => {
@@ -409,6 +469,9 @@ fn arb_leaf(abort_w: u32) -> impl Strategy<Value = RP> {
         30 => arb_get().prop_map(RP::Discard),
         8 => Just(RP::Eff),
         10 => (any::<u16>(), 0u8..4).prop_map(|(sel, delay)| RP::Suspend { sel, delay }),
+        10 => (any::<u16>(), 0u8..3, 0i32..NKEYS, arb_val()).prop_map(|(sel, op, k, c)| RP::Xform { sel, op, k, c }),
+        3 => (any::<u16>(), proptest::collection::vec((0i32..NKEYS, arb_val()), 0..4))
+            .prop_map(|(sel, entries)| RP::Replace { sel, entries }),
         abort_w => prop_oneof![Just(RP::Fail), Just(RP::Stop)],
     ]
 }
@@ -472,5 +535,13 @@ pub fn arb_tables(big: bool) -> impl Strategy<Value = RawTables> {
             run,
             spawn,
             lane,
+        })
+        .prop_flat_map(|t| (Just(t), proptest::option::weighted(0.02, (any::<u16>(), any::<u16>(), 0i32..50))))
+        .prop_map(|(mut t, burst)| {
+            // rarely: a very long acyclic chain (hundreds of changes of one lane inside a single top-level handler)
+            if let Some((sel, n, v)) = burst {
+                t.run.push(RP::Burst { sel, n, v });
+            }
+            t
         })
 }
